@@ -188,7 +188,7 @@ pub fn run(cx: &mut Ctx) {
         let ops = rng.range(1, 3) as u64;
         let mem_kib = *rng.pick(&[8usize, 9, 16, 33, 64]);
         let hash_length = *rng.pick(&[32usize, 32, 16, 33, 64, 128]);
-        let cfg = Config::interactive().with_opslimit(ops).with_memlimit(mem_kib * 1024).with_hash_length(hash_length).with_salt_length(salt_len);
+        let (cfg, _cfg_desc) = build_config(&mut rng, ops, mem_kib * 1024, hash_length, Some(salt_len));
         // libsodium's construction: secret key = crypto_pwhash(outlen = 32, ...) ; public key = X25519 base mult
         let wsk: [u8; 32] = if salt_len == 16 {
             let s16: [u8; 16] = salt.clone().try_into().unwrap();
